@@ -3,8 +3,7 @@
    bit1 = guard_F02a false (a cycle placeholder was stored / shadowed the parsed schema)
    bit2 = guard_F02b false (two nodes are parsed under the same name: name capture)
    bit3 = guard_F02c false (a cycle-closing reference returned an unstored empty placeholder)
-   bit4 = guard_F02d false (depth placeholder)
-   bit5 = guard_F02f false (registered schema marked circular) *)
+   bit4 = guard_F02d false (depth placeholder for an inline name / left in the registry) *)
 From PG Require Import Lib.Strs Corr.Driver Model.AllOf Model.Parser.
 
 Definition sobs_eqb (a b : sobs) : bool :=
@@ -23,6 +22,6 @@ Definition res_eqb (a b : list sobs + N) : bool :=
 Definition model_obs (c : N * spec) : list sobs + N := run_doc (fst c) (snd c).
 Definition guards (c : N * spec) : list bool :=
   let s := parse_doc (fst c) (snd c) in
-  [guard_F02a s; guard_F02b (snd c); guard_F02c s; guard_F02d s; guard_F02f s].
+  [guard_F02a s; guard_F02b (snd c); guard_F02c s; guard_F02d s].
 Definition run (cases : list ((N * spec) * (list sobs + N))) : list N :=
   report res_eqb model_obs guards cases.
